@@ -19,13 +19,13 @@ func init() {
 		ID: "C03", Level: "exploration", Primary: "cases", EvalCount: "requests_routed",
 		Rule: "route tables = every sequence of up to k routes (k=2 quick, 3 thorough) over a 15-spec alphabet (bind; search with base in {unset,dc=a} x filter in {unset,(cn=x)} x scope in {unset,2}; " +
 			"extended A/B/StartTLS-name; modify; add; delete) x {no default, default, default registered twice} x {no unbind route, unbind registered twice}, plus random tables up to length 8 - every tenth one of 13..40 routes - with case variants and scope 1; " +
-			"each table is served on a fresh connection the full 40-request alphabet (bind; search over 3 bases x 3 filters x 3 scopes; six spellings - compact, with blanks next to the comma or at the ends, around an escaped comma - of two-RDN base DNs, which the random tables also use as route bases; extended A/B/C; modify; add; delete) plus Unbind, all pipelined; every seventh table by a server of its own whose empty mux was attached (Server.Router) before the routes were registered, every fifth table is served over a TLS listener, every fifth on a server created WithDisablePanicRecovery, and every other table spells a zero scope out as WithScope(BaseObject); in every sixth table the handlers hand the request to a worker that answers after they have returned, in every fourth the routes carry (repeated) labels, in every fifth table the route handlers (except those of StartTLS-named routes, which run on the read loop) panic right after they have answered. " +
+			"each table is served on a fresh connection the full 40-request alphabet (bind; search over 3 bases x 3 filters x 3 scopes; six spellings - compact, with blanks next to the comma or at the ends, around an escaped comma - of two-RDN base DNs, which the random tables also use as route bases; extended A/B/C; modify; add; delete) plus Unbind, all pipelined; every seventh table by a server of its own whose empty mux was attached (Server.Router) before the routes were registered, every fifth table is served over a TLS listener, every fifth on a server created WithDisablePanicRecovery, and every other table spells a zero scope out as WithScope(BaseObject); search criteria and extended names also come with near misses that are no case variants ([ for {, @ for `, blanks at the ends of a name, an oid. prefix); in every sixth table the handlers hand the request to a worker that answers after they have returned, in every fourth the routes carry (repeated) labels, in every fifth table the route handlers (except those of StartTLS-named routes, which run on the read loop) panic right after they have answered. " +
 			"Oracle: 15-line reference model (first matching route, else last-registered default, else built-in refusal). distinct_nontrivial = distinct (route-table signature, request, outcome) triples observed",
 		Assume: []string{"re-registering the default or unbind route replaces the earlier registration (last registration wins)"},
 		Phases: func(tier string, seed int64) []Phase {
 			return []Phase{{Name: "tables", Run: c03Tables}, {Name: "goldap-noroute", Run: c03GoLDAP}}
 		},
-		MinObserved: []string{"requests_routed", "outcome/builtin", "outcome/default", "outcome/first_of_several", "outcome/shadowed_later_route", "tables_over_tls", "tables_whose_route_handlers_panic_after_replying", "requests_carrying_controls", "tables_on_a_server_without_panic_recovery", "search_routes_registered_with_an_explicit_zero_scope", "search_routes_with_a_base_dn_of_several_rdns", "tables_whose_routes_were_registered_after_the_mux_was_attached", "tables_with_more_than_twelve_routes", "tables_whose_handlers_answer_after_they_returned", "tables_whose_routes_share_labels"},
+		MinObserved: []string{"requests_routed", "search_routes_whose_criteria_have_non_letter_near_misses", "outcome/builtin", "outcome/default", "outcome/first_of_several", "outcome/shadowed_later_route", "tables_over_tls", "tables_whose_route_handlers_panic_after_replying", "requests_carrying_controls", "tables_on_a_server_without_panic_recovery", "search_routes_registered_with_an_explicit_zero_scope", "search_routes_with_a_base_dn_of_several_rdns", "tables_whose_routes_were_registered_after_the_mux_was_attached", "tables_with_more_than_twelve_routes", "tables_whose_handlers_answer_after_they_returned", "tables_whose_routes_share_labels"},
 	})
 }
 
@@ -74,6 +74,14 @@ const (
 	extC = "1.1.1.3"
 )
 
+// strings that differ from one another in an octet pair 0x20 apart that is not a letter pair ([ and {, @ and `), next to
+// a real case variant: to a route the former are different strings, the latter is the same
+var c03NearBases = []string{"ou=[s],dc=a", "ou={s},dc=a", "OU=[S],DC=A"}
+var c03NearFilters = []string{"(m=a@b)", "(m=a`b)", "(M=A@B)"}
+
+// extended request names that are almost a routed name: blanks at the ends, an "oid." prefix
+var c03NearNames = []string{" " + extA, extA + " ", "oid." + extA, "OID." + extB}
+
 var c03SpacedBases = []string{"ou=p,dc=a", "ou=p, dc=a", "OU=P,DC=A ", " ou=p,dc=a", "cn=s\\, j,dc=a", "cn=s\\,j,dc=a"}
 
 func c03RouteAlphabet() []rspec {
@@ -103,7 +111,13 @@ func c03Requests() []creq {
 	for _, b := range c03SpacedBases {
 		out = append(out, creq{Kind: "search", Base: b, Filter: "(cn=x)", Scope: 2})
 	}
+	for i, b := range c03NearBases {
+		out = append(out, creq{Kind: "search", Base: b, Filter: c03NearFilters[i], Scope: 2}, creq{Kind: "search", Base: b, Filter: c03NearFilters[(i+1)%3], Scope: 1})
+	}
 	out = append(out, creq{Kind: "ext", Name: extA}, creq{Kind: "ext", Name: extB}, creq{Kind: "ext", Name: extC}, creq{Kind: "ext", Name: sber.OIDStartTLS}, creq{Kind: "modify"}, creq{Kind: "add"}, creq{Kind: "delete"})
+	for _, n := range c03NearNames {
+		out = append(out, creq{Kind: "ext", Name: n})
+	}
 	for i := range out {
 		out[i].ID = int64(1000 + i*7)
 	}
@@ -572,6 +586,12 @@ func c03Tables(c *Ctx) {
 				}
 				sp.Filter = pick(r, []string{"", "(cn=x)", "(CN=X)", "(cn=y)", "(Cn=X)"})
 				sp.Scope = r.Intn(3)
+				if r.Chance(12) {
+					sp.Base, sp.Filter = pick(r, append([]string{""}, c03NearBases...)), pick(r, append([]string{""}, c03NearFilters...))
+					if sp.Base != "" || sp.Filter != "" {
+						c.Count("search_routes_whose_criteria_have_non_letter_near_misses", 1)
+					}
+				}
 			}
 			if sp.Kind == "ext" {
 				sp.Name = pick(r, []string{extA, extB, extC})
